@@ -15,6 +15,9 @@ from hgmon import core
 
 
 def run_shard(prop: str, tier: str, seed: int, shard: tuple[int, int], replay: str | None = None) -> dict:
+    import logging
+
+    logging.disable(logging.CRITICAL)  # the library logs every swallowed processor/caching error
     hgmon.pin_repo()
     mod = importlib.import_module(f"hgmon.props.{prop}")
     ctx = core.Ctx(prop, tier, seed, mod.LEVEL, mod.RULE, shard)
